@@ -22,8 +22,37 @@ def bodyOf (j : Json) : Body :=
 def guardOf (j : Json) : Guard :=
   ⟨jB (jF j "wantsArgs"), jB (jF j "selfFirst"), jB (jF j "isStatic"), jN (jF j "nDeco"), jB (jF j "marker")⟩
 
+def seenOf (j : Json) (at_ : Nat) : Seen := ⟨jB (jAt j at_), jB (jAt j (at_ + 1)), jB (jAt j (at_ + 2))⟩
+
+/-- a member on the wire: `[name, isNone, truthy, callable]` -/
+def membersOf (j : Json) : List Member := (jL j).map (fun m => ⟨jN (jAt m 0), seenOf m 1⟩)
+
+/-- the name every class of the legacy wire format (`"baseHas": bool`, no description) is asked for -/
+def legacyName : Nat := 100
+
+/-- `"base"`: the description of the class; absent (older replay files): a class whose body binds the name to a function, or not -/
+def classOf (j : Json) : ClassDesc :=
+  let b := jF j "base"
+  if jIsNull b then
+    ⟨[if jB (jF j "baseHas") then [⟨legacyName, ⟨false, true, true⟩⟩] else [], []], [[], []], none, none⟩
+  else
+    ⟨(jL (jF b "mro")).map membersOf, (jL (jF b "metaMro")).map membersOf,
+     (if jIsNull (jF b "metaGetattr") then none else some (seenOf (jF b "metaGetattr") 0)),
+     (if jIsNull (jF b "dirOverride") then none else some (natsOf (jF b "dirOverride")))⟩
+
 def paramsOf (other : Body) (j : Json) : Params :=
-  ⟨⟨jN (jAt (jF j "param") 0), jN (jAt (jF j "param") 1)⟩, pairsOf (jF j "renames"), other, jB (jF j "baseHas"), guardOf (jF j "guard")⟩
+  ⟨⟨jN (jAt (jF j "param") 0), jN (jAt (jF j "param") 1)⟩, pairsOf (jF j "renames"), other, classOf j,
+   (if jIsNull (jF j "fname") then legacyName else jN (jF j "fname")), guardOf (jF j "guard")⟩
+
+/-- what the model's class lookup computes for the tests a decorator could make on `base_class` about the name:
+    `name in dir(base)`, `hasattr(base, name)`, `name in base.__dict__`, and for `v = getattr(base, name, None)`:
+    `v is None`, `bool(v)`, `callable(v)` — compared with the real interpreter on every case -/
+def classObsJ (p : Params) : Json :=
+  let g := p.base.getattr p.fname
+  jArr [jBool (p.base.dir.contains p.fname), jBool g.isSome, jBool (p.base.owns p.fname),
+        jBool (match g with | some s => s.isNone | none => true),
+        jBool (match g with | some s => s.truthy | none => false),
+        jBool (match g with | some s => s.callable | none => false)]
 
 def argsOf (j : Json) : Args := ⟨natsOf (jF j "pos"), pairsOf (jF j "kw")⟩
 
@@ -180,7 +209,12 @@ def handleCall (c : Json) : Json :=
                           ("twin", jArr (specCallsJ specTwin)),
                           ("meta", jBool true),
                           ("coro", if sfn.allDedicated then jBool sfn.isCoro else Json.null)]
+      let classObs := (jL (jF c "layers")).filterMap (fun l =>
+        if jS (jF l "d") == "overrides" then some (classObsJ (paramsOf other l)) else none)
+      let specHas := (jL (jF c "layers")).filterMap (fun l =>
+        if jS (jF l "d") == "overrides" then some (jBool (hasName (paramsOf other l).base (paramsOf other l).fname)) else none)
       mkObj [("model", modelJ), ("spec", specJ), ("modelTwin", jArr (callsJ twin twinOuts)),
+             ("classObs", jArr classObs), ("specHasName", jArr specHas),
              ("region", match region with | some r => jStr r | none => Json.null)]
 
 def handle (c : Json) : Json :=
